@@ -1,6 +1,7 @@
 import Gaftools.Drv.Sort
 import Gaftools.Drv.Gaf
 import Gaftools.Drv.Gfa
+import Gaftools.Drv.Realign
 /-! The correspondence driver: one JSON object per line in, one per line out. -/
 open Lean Gaftools.Drv
 
@@ -16,6 +17,9 @@ def dispatch (op : String) (j : Json) : Except String Json :=
   | "walk.extract" => Gfa.opExtract j
   | "graph.algos" => Graph.opAlgos j
   | "graph.history" => Graph.opHistory j
+  | "realign.run" => Realign.opRun j
+  | "realign.groups" => Realign.opGroups j
+  | "realign.record" => RealignRec.opRecord j
   | _ => throw s!"unknown op {op}"
 
 partial def loop (h : IO.FS.Stream) (out : IO.FS.Stream) : IO Unit := do
